@@ -40,7 +40,7 @@ for name in names:
             t0 = time.time()
             p = subprocess.run([PY, "-B", "-m", "qsim", "check", pid, "--tier", "quick"] + budget, cwd=ROOT, env=env,
                                capture_output=True, text=True, timeout=7200)
-            res[pid] = {"exit": p.returncode, "wall_s": round(time.time() - t0, 1),
+            res[pid] = {"exit": p.returncode if (p.returncode != 1 or "VIOLATION property=" in p.stdout) else 2, "wall_s": round(time.time() - t0, 1),
                         "classes": [ln.split("class ")[1].split(":")[0] for ln in p.stdout.splitlines() if "unlisted violation class" in ln][:6]}
         out[name] = {"applies": True, "checks": res, "caught": any(v["exit"] == 1 for v in res.values())}
         print(name, {k: v["exit"] for k, v in res.items()}, flush=True)
